@@ -9,6 +9,7 @@
 From VF Require Import Base.Prelude Model.Cache Model.Session Model.Codec Model.Middleware Model.World
      Corr.WorldCorr Spec.WorldSpec.
 From VF Require Import Proofs.WorldBase Proofs.SessionProofs Proofs.W_Cookies Proofs.W_C07 Proofs.W_C07E Proofs.W_Example Proofs.W_C17.
+From VF Require Import Corr.SessionCorr Proofs.SessionRef.
 
 (* ---- byte level: splitIntoChunks (justifies the symbolic `whole t` of the model) *)
 
@@ -175,3 +176,35 @@ Theorem C07_no_read_back_flag : forall (E : env) (cfg : config) (st : inst) (now
   no_flag 6 (snd (serve E cfg st now rq rnd ans)) = true.
 Proof. exact (fun E cfg st now rq rnd ans => f_equal (fun l => negb (memk 6 l)) (flags_serve E cfg st now rq rnd ans)). Qed.
 Print Assumptions C07_no_read_back_flag.
+
+(* ---- the property at full strength at the level of the session API (Corr/SessionCorr.v, Proofs/SessionRef.v):
+   for ANY list of requests of one browser starting from an empty jar, each request being ANY list of calls
+   (SetAuthenticated, the five string setters, SetAccessToken, SetRefreshToken, Save, Clear -- in any order, any
+   number of Saves), every request reads exactly what the reference "the values last written AND saved" says,
+   whatever the number of chunk cookies each token text needs.  wf_reqs asks only: instants within 24 h (a session
+   older than that reads as logged out), the string setters write the string fields (3..7), no token setter after a
+   Clear that is still followed by a Save (Clear hands the object back); nch_ok: a non-empty token that is saved
+   occupies at least one cookie.  The sweep of bin/props/c07.py checks wf_reqs and nch_ok on every case it
+   generates and compares the reads of the real getters with both sides of this equation. *)
+Theorem C07_api_refinement : forall (nch : istr -> nat) (k : N) (reqs : list sreq),
+  wf_reqs reqs = true -> nch_ok nch reqs = true ->
+  model_run nch k [] reqs = ref_run ref_empty reqs.
+Proof. exact model_refines_ref. Qed.
+Print Assumptions C07_api_refinement.
+
+(* on a case accepted by the two premises, "the implementation differs from the model" and "the implementation
+   does not read back what was last saved" are the same verdict *)
+Theorem C07_api_mismatch_is_violation : forall c : scase,
+  wf_reqs (sc_reqs c) = true -> nch_ok (nch_of (sc_nchunks c)) (sc_reqs c) = true ->
+  smismatch c = violates_c07s c.
+Proof. exact smismatch_is_violation. Qed.
+Print Assumptions C07_api_mismatch_is_violation.
+
+(* seven requests: several Saves per request with shorter tokens set in between (3 chunks -> 2 -> 1), a Clear after
+   a Save, unsaved tails; premises hold and both sides compute to the same non-trivial reads *)
+Example C07_api_nonvacuous := refinement_example.
+(* each remaining premise is needed: the reads differ without it *)
+Example C07_api_needs_nch := refinement_needs_nch.
+Example C07_api_needs_fields := refinement_needs_fields.
+Example C07_api_needs_time := refinement_needs_time.
+Example C07_api_needs_no_setter_after_clear := refinement_needs_no_setter_after_clear.
